@@ -99,6 +99,13 @@ fn alphabet(pool: &[Op], thorough: bool) -> Vec<KStep> {
         }
     }
     out.push(KStep { ks: 0, step: Step { req: Req::Purge, fault: Fault::None } });
+    // transient storage failures: the request is answered with an error and may be re-delivered
+    for i in [0usize, 2, 3, 6] {
+        if let Some(op) = pool.get(i) {
+            let req = if op.del { Req::Del { op: i, src: 0 } } else { Req::Set { op: i, src: 0 } };
+            out.push(KStep { ks: 0, step: Step { req, fault: Fault::FailBefore } });
+        }
+    }
     out
 }
 
@@ -210,9 +217,40 @@ where
     let clock = Clock::new(9);
     let group = ec::KeyspaceGroup::new(store.clone(), clock).await;
     group.load_states_from_storage().await.map_err(|e| e.to_string())?;
+    let mut acked: Vec<(usize, u64, datacake_crdt::HLCTimestamp)> = Vec::new();
     for s in history {
         let ks = group.get_or_create_keyspace(KEYSPACES[s.ks]).await;
-        let _ = c02::send_request(&ks, pool, &s.step.req).await;
+        store.plan([s.step.fault]);
+        let reply = c02::send_request(&ks, pool, &s.step.req).await;
+        store.plan([]);
+        if reply.is_ok() {
+            let ops: Vec<usize> = match &s.step.req {
+                Req::Set { op, .. } | Req::Del { op, .. } => vec![*op],
+                Req::MultiSet { ops, .. } | Req::MultiDel { ops, .. } => ops.clone(),
+                Req::Purge => vec![],
+            };
+            for o in ops {
+                acked.push((s.ks, pool[o].key, pool[o].ts));
+            }
+        }
+    }
+    // every acknowledged mutation must be durable (a restart rebuilds from storage only):
+    // storage holds the id at that stamp or a newer one, unless the stamp lies behind the
+    // origin's cut-off (then it was legitimately ignored, or purged since)
+    for (ksi, id, ts) in &acked {
+        let name = KEYSPACES[*ksi];
+        let rows = read_rows(store.as_ref(), name).await?;
+        let ks = group.get_or_create_keyspace(name).await;
+        let set = ks.send(ec::Serialize).await.map_err(|e| e.to_string()).and_then(|b| decode_set(&b))?;
+        let snap = set.verif_snapshot();
+        let behind_cutoff = snap.safe_stamps.iter().any(|(n, s)| *n == ts.node() && ts < s);
+        let durable = rows.get(id).map_or(false, |(t, _)| t >= ts);
+        if !durable && !behind_cutoff {
+            return Err(format!(
+                "ACK-NOT-DURABLE keyspace {name:?}: the request for id {id} at {ts} was acknowledged but storage holds {:?}",
+                rows.get(id).map(|(t, d)| (t.to_string(), d.is_some()))
+            ));
+        }
     }
     let mut fp = Vec::new();
     for name in KEYSPACES {
@@ -258,7 +296,8 @@ where
             let fp = match first_life(pool, store.clone(), history, None).await {
                 Ok(fp) => fp,
                 Err(e) => {
-                    st.violation("first-life-failed", || e.clone(), || case_json(pool, store_name, history, "-", None));
+                    let key = if e.starts_with("ACK-NOT-DURABLE") { "acknowledged-mutation-not-in-storage" } else { "first-life-failed" };
+                    st.violation(key, || e.clone(), || case_json(pool, store_name, history, "would be lost by a restart at any later point", None));
                     return None;
                 },
             };
